@@ -34,6 +34,10 @@ CLAIMED = {
          "Exploration. Every form (47 incl. GNU forms and DW_FORM_indirect) is enumerated under all 64 encoding configurations with boundary payloads and fixed/variable neighbours; generated abbreviation lists of 1-12 attributes over 60 attribute names exercise skip accumulation across fixed/variable boundaries, nested indirect forms, implicit constants, the legacy data4/data8 section-offset rule and unknown forms. Checked: decoded raw value, advance = encoded length per attribute, skip_attributes after reading i attributes for every i, advertised fixed size, value() payload preservation and class. Both build profiles.",
          "Trusts the form model and .debug_info/.debug_abbrev assembler in harness/src/dieasm.rs (written from DWARF 5 section 7.5). Attribute values are generated inside their form's width.",
          "DESIGN.md §4 C03"),
+ 'C02': ("proptest random forests built by an independent .debug_info/.debug_types/.debug_abbrev assembler whose layout record is the oracle; six-way agreement of navigation APIs (raw, DFS cursor, next_entry, next_sibling, tree iterator, positioned reads)",
+         "Exploration. Generated multi-unit forests over every unit type and header layout, tree shape class, abbreviation-code scheme (incl. codes >= 2^63 and codes aliasing modulo 2^32) and DW_AT_sibling placement are assembled independently; every navigation API must report exactly the assembler's (offset, depth, tag, children flag, attribute count, parent) records, from the root and from every entry offset; header accessors, offset conversions and abbreviation lookup for present/absent codes are compared; duplicate-code tables must be rejected. Both build profiles.",
+         "Trusts the assembler and its layout record in harness/src/dieasm.rs. Forests are well formed (sibling pointers target the next sibling or the terminating null).",
+         "DESIGN.md §4 C02"),
 }
 NOT_YET = "check not built yet in this session (machinery is being extended property by property; see DESIGN.md §4)"
 
